@@ -181,7 +181,10 @@ def run(m):
 '''
 
 
-not_covered("C25", "float operands (decimal arithmetic through decimal.Decimal is compared with exact rationals in the bounded check only)",
-            "string and array filters are decided by the bounded check against references written from the statement; their bodies are comprehension/str-method one-liners under the trusted builtin models")
+import contracts.C25_more  # noqa: E402,F401  (string, selection and array filters)
+
+not_covered("C25", "numeric value of float results (floats are abstract: the shape of the computation is proved, its decimal value is compared with exact rationals in the bounded check only)",
+            "arrays longer than 3 items (reverse, compact, uniq, concat, first, last, size, default are proved for every spine length 0..3 and all item values; longer arrays: bounded check)",
+            "sort, sort_natural, map, where, reject (ordering by str(), property access on records), truncatewords and the split/join round trip are decided by the bounded check against references written from the statement")
 
 bounded("C25", "bounded/C25.py")
